@@ -98,3 +98,4 @@ impl vstd::std_specs::cmp::PartialOrdSpecImpl for BigInt {
     }
 }
 impl PartialOrd for BigInt { #[verifier::external_body] fn partial_cmp(&self, o: &BigInt) -> (r: Option<core::cmp::Ordering>) { unimplemented!() } }
+impl Clone for Redeemer { #[verifier::external_body] fn clone(&self) -> (r: Self) ensures r == *self { unimplemented!() } }
